@@ -83,7 +83,12 @@ fn run(result: crate::flags::ParseResult<HiArgs>) -> anyhow::Result<ExitCode> {
         ParseResult::Ok(args) => args,
     };
     let matched = match args.mode() {
-        Mode::Search(_) if !args.matches_possible() => false,
+        Mode::Search(_) if !args.matches_possible() => {
+            // Nothing will be searched, but an invalid pattern is still an
+            // error.
+            args.matcher()?;
+            false
+        }
         Mode::Search(mode) if args.threads() == 1 => search(&args, mode)?,
         Mode::Search(mode) => search_parallel(&args, mode)?,
         Mode::Files if args.threads() == 1 => files(&args)?,
